@@ -120,6 +120,7 @@ def gen_case(rng, tier="quick"):
     case["one_tuples"] = rng.random() < 0.2
     case["staged_build"] = rng.random() < 0.25
     case["homogeneous"] = rng.random() < 0.35
+    case["split"] = rng.random() < 0.4
     case["entangled_start"] = kind == "generic" and rng.random() < 0.3
     return case
 
@@ -147,6 +148,10 @@ def shrink(case):
         out.append(dict(case, controls=case["controls"][:-1]))
     if case["regime"] != "permuted":
         out.append(dict(case, regime="permuted"))
+    for flag in ("split", "homogeneous", "staged_build", "entangled_start",
+                 "one_tuples", "nn_diss"):
+        if case.get(flag):
+            out.append(dict(case, **{flag: False}))
     return out
 
 
@@ -381,6 +386,10 @@ def run_tebd(case, pts, parallel):
     tebd = oqupy.PtTebd(mps, chain, pts, pars, dynamics_sites=sites,
                         chain_control=chain_control(case),
                         backend_config=cfg)
+    if case.get("split") and case["steps"] >= 2:
+        # the computation continued in chunks on the same object
+        tebd.compute(max(1, case["steps"] // 2), progress_type="silent")
+        tebd.compute(case["steps"] // 2, progress_type="silent")   # no-op
     res = tebd.compute(case["steps"], progress_type="silent")
     out = {"time": np.array(res["time"]), "norm": np.array(res["norm"])}
     for s in sites:
